@@ -2044,3 +2044,81 @@ func ruleUnionMember(c *Ctx, r *Report) {
 			fmt.Sprintf("%s asserts its value to the predeclared type %s: the named type a simplified union stores for such a member (UnionFloat64, UnionBool, …) fails the assertion, so Validate rejects a valid union value", name, bad))
 	}
 }
+
+// ---- R-DEFAULT-VALUE (C33): two clauses found with a probe, recorded as known findings -------------
+
+// ruleDefaultValueSemantics: (1) a binary default is written in base64 (RFC 7950 §9.8.2): the Go
+// literal must be built from the decoded bytes; (2) the default of a leaf below a case applies only
+// when that case is selected or is the default case (§7.9.3, §7.6.1): somewhere between the schema
+// and the PopulateDefaults template the generator has to distinguish such leaves.
+func ruleDefaultValueSemantics(c *Ctx, r *Report) {
+	r.Rule("R-DEFAULT-VALUE", "gogen's default conversion builds the Binary literal from the base64-decoded bytes, and the generator distinguishes leaves below a case when it hands defaults to PopulateDefaults (their defaults are conditional on the case being selected)", 2)
+	if f := c.MustFunc(r, "gogen", "GoLangMapper.yangDefaultValueToGo"); f != nil {
+		info := f.Info()
+		var decoded types.Object
+		var dec *ast.CallExpr
+		for _, call := range CallsIn(info, f.Decl.Body, "encoding/base64.Encoding.DecodeString") {
+			dec = call
+			if as, ok := c.parentMap(f.File)[call].(*ast.AssignStmt); ok {
+				decoded = ObjOf(info, as.Lhs[0])
+			}
+		}
+		if dec == nil || decoded == nil {
+			r.Und("gogen.yangDefaultValueToGo:binary:literal-from-decoded-bytes", c.Pos(f.Decl.Pos()), "binary arm (base64 DecodeString) not found")
+		} else {
+			// the literal returned from the arm: a Sprintf mentioning Binary whose data argument
+			// is (derived from) the decoded bytes.
+			arm := c.enclosingCase(f, dec)
+			ok, found := false, false
+			if arm != nil {
+				for _, call := range CallsIn(info, arm, "fmt.Sprintf") {
+					found = true
+					for _, a := range call.Args[1:] {
+						if mentionsObj(info, a, decoded) {
+							ok = true
+						}
+					}
+				}
+			}
+			switch {
+			case !found:
+				r.Und("gogen.yangDefaultValueToGo:binary:literal-from-decoded-bytes", c.Pos(dec.Pos()), "the binary arm does not build its literal with fmt.Sprintf: re-confirm the rule")
+			default:
+				r.Check(ok, "gogen.yangDefaultValueToGo:binary:literal-from-decoded-bytes", c.Pos(dec.Pos()), "Binary literal built from the decoded bytes",
+					"the binary arm decodes the base64 default only to validate its length and then emits Binary(\"<base64 text>\"): PopulateDefaults sets the leaf to the bytes of the base64 text (default \"aGVsbG8=\" gives \"aGVsbG8=\", not \"hello\"), which renders as a different value")
+			}
+		}
+	}
+	if f := c.MustFunc(r, "gogen", "generateGoDefaultValue"); f != nil {
+		info := f.Info()
+		aware := false
+		ast.Inspect(f.Decl.Body, func(n ast.Node) bool {
+			switch x := n.(type) {
+			case *ast.CallExpr:
+				fn := FullName(Callee(info, x))
+				if strings.HasSuffix(fn, ".IsChoiceOrCase") || strings.HasSuffix(fn, "yang.Entry.IsCase") || strings.HasSuffix(fn, "yang.Entry.IsChoice") {
+					aware = true
+				}
+			case *ast.SelectorExpr:
+				if nm := constName(info, x); strings.HasSuffix(nm, "CaseEntry") || strings.HasSuffix(nm, "ChoiceEntry") {
+					aware = true
+				}
+			}
+			return true
+		})
+		// the IR may carry the distinction instead.
+		if p := c.Pkg("ygen"); p != nil && !aware {
+			if tn, ok := p.Types.Scope().Lookup("YANGNodeDetails").(*types.TypeName); ok {
+				if st, ok := tn.Type().Underlying().(*types.Struct); ok {
+					for i := 0; i < st.NumFields(); i++ {
+						if nm := strings.ToLower(st.Field(i).Name()); strings.Contains(nm, "case") || strings.Contains(nm, "choice") {
+							aware = true
+						}
+					}
+				}
+			}
+		}
+		r.Check(aware, "gogen.generateGoDefaultValue:case-aware-defaults", c.Pos(f.Decl.Pos()), "leaves below a case are distinguished when defaults are generated",
+			"nothing between the schema and the PopulateDefaults template distinguishes a leaf below a case: its default is populated unconditionally, so a tree with case b populated gets the default of a leaf of case a as well and no longer validates (\"multiple cases selected\")")
+	}
+}
